@@ -1928,6 +1928,11 @@ func unpackBytes(msg []byte, off int, field []byte) (int, error) {
 
 const nonEncodedNameMax = 254
 
+// maxCompressionPointers is the maximum number of compression pointers that
+// Name.unpack follows while unpacking a single name (there might be a loop).
+// Name.pack never emits a name that needs more.
+const maxCompressionPointers = 10
+
 // A Name is a non-encoded and non-escaped domain name. It is used instead of strings to avoid
 // allocations.
 type Name struct {
@@ -2022,13 +2027,16 @@ func (n *Name) pack(msg []byte, compression map[string]uint16, compressionOff in
 		// segment. A pointer is two bytes with the two most significant
 		// bits set to 1 to indicate that it is a pointer.
 		if (i == 0 || n.Data[i-1] == '.') && compression != nil {
-			if ptr, ok := compression[string(n.Data[i:n.Length])]; ok {
+			if ptr, ok := compression[string(n.Data[i:n.Length])]; ok &&
+				compressionDepth(msg, compressionOff, int(ptr)) < maxCompressionPointers {
 				// Hit. Emit a pointer instead of the rest of
 				// the domain.
 				return append(msg, byte(ptr>>8|0xC0), byte(ptr)), nil
 			}
 
-			// Miss. Add the suffix to the compression table if the
+			// Miss, or the suffix is itself stored behind so many
+			// pointers that one more could not be unpacked. Add
+			// the suffix to the compression table if the
 			// offset can be stored in the available 14 bits.
 			newPtr := len(msg) - compressionOff
 			if newPtr <= int(^uint16(0)>>2) {
@@ -2042,6 +2050,34 @@ func (n *Name) pack(msg []byte, compression map[string]uint16, compressionOff in
 		}
 	}
 	return append(msg, 0), nil
+}
+
+// compressionDepth returns the number of compression pointers that have to
+// be followed to unpack the name packed at compressionOff+ptr in msg (at most
+// maxCompressionPointers are counted).
+func compressionDepth(msg []byte, compressionOff, ptr int) int {
+	depth := 0
+	for off := compressionOff + ptr; off < len(msg); {
+		c := int(msg[off])
+		switch c & 0xC0 {
+		case 0x00: // String segment
+			if c == 0x00 {
+				return depth
+			}
+			off += 1 + c
+		case 0xC0: // Pointer
+			if off+1 >= len(msg) {
+				return depth
+			}
+			if depth++; depth >= maxCompressionPointers {
+				return depth
+			}
+			off = compressionOff + ((c^0xC0)<<8 | int(msg[off+1]))
+		default:
+			return depth
+		}
+	}
+	return depth
 }
 
 // unpack unpacks a domain name.
@@ -2103,7 +2139,7 @@ Loop:
 				newOff = currOff
 			}
 			// Don't follow too many pointers, maybe there's a loop.
-			if ptr++; ptr > 10 {
+			if ptr++; ptr > maxCompressionPointers {
 				return off, errTooManyPtr
 			}
 			currOff = (c^0xC0)<<8 | int(c1)
